@@ -7,7 +7,7 @@ from run import zs, cres
 class Prop(BaseProp):
     id = "C04"
     theorems = ["C04_wordlist_official", "C04_wordlist_nodup", "C04_words_injective", "C04_decode_encode",
-                "C04_good_size_accepted", "C04_bad_size_rejected"]
+                "C04_good_size_accepted", "C04_bad_size_rejected", "C04_string_route"]
     exec_modules = ["Exec.C04"]
     exec_import = "From BHW Require Import Lib.Base Exec.Common Exec.C04.\nFrom Coq Require Import String.\nOpen Scope string_scope."
     shard = 40
